@@ -101,6 +101,7 @@ type simConn struct {
 	armedR     bool
 	armedW     bool
 	closed     bool
+	peerGone   bool                 // the peer closed its end (net.Pipe semantics): writes fail with io.ErrClosedPipe, reads see EOF, our end stays open
 	expiredR   bool                 // a read deadline expired and has not been set again
 	deadlineR  time.Time            // the read deadline as set (zero: none)
 	pend       []byte               // rest of a chunk that did not fit the slice
@@ -125,6 +126,8 @@ func (c *simConn) Read(p []byte) (int, error) {
 		// the deadline that expired is still in the past: every read fails at once until
 		// the deadline is set again (net.Conn semantics)
 		a = readAns{kind: rTimeout}
+	} else if c.peerGone {
+		a = readAns{kind: rEOF}
 	} else if len(c.pend) != 0 {
 		a = readAns{kind: rData, data: c.pend}
 		c.pend = nil
@@ -177,6 +180,11 @@ func (c *simConn) Write(p []byte) (int, error) {
 		c.log.add(e)
 		return 0, net.ErrClosed
 	}
+	if c.peerGone {
+		e.Ans = wClosed
+		c.log.add(e)
+		return 0, io.ErrClosedPipe
+	}
 	a := c.onWrite(c, p)
 	e.Ans = a.kind
 	if a.kind == wOk {
@@ -189,7 +197,7 @@ func (c *simConn) Write(p []byte) (int, error) {
 		panic("sim: write deadline expiry without a deadline")
 	}
 	e.N = a.n
-	if a.kind == wClosed {
+	if a.kind == wClosed && !c.peerGone {
 		c.markClosed() // somebody closed the connection
 	}
 	c.written = append(c.written, p[:a.n]...)
@@ -200,6 +208,9 @@ func (c *simConn) Write(p []byte) (int, error) {
 	case wTimeout:
 		return a.n, errSimTimeout
 	case wClosed:
+		if c.peerGone {
+			return a.n, io.ErrClosedPipe
+		}
 		return a.n, net.ErrClosed
 	default:
 		return a.n, errSimHard
